@@ -13,6 +13,10 @@
 //     BlobVerifier with the caller's own descriptor generator;
 //   - lists.go   (vi)  two-call histories on one fresh verifier, the second call optionally handing in the very
 //     map object of the first; (vii) notation.Verify over every list of 1..3 signatures x paging of the listing;
+//   - keysalgs.go (round 4) (viii) signed blob digests under every supported algorithm other than the key's x
+//     signed content (also empty) x presented content (also empty and an equal-length twin) x reader shapes;
+//     (ix) required-metadata KEYS that are not plain words (reserved prefix, near miss, empty, case/blank
+//     variants) through all five entry points;
 //   - every call now receives a private copy of the required-metadata map, the oracle keeps the pristine one
 //     (the code writing into the caller's map used to change the oracle's expectation as well);
 //   - replay.go: a replay trusts the stored envelope's own copy of a trusted root (certificates are regenerated
@@ -802,6 +806,9 @@ func main() {
 	shapedFamily(r, w, fewLevels, extra)
 	historyFamily(r, w, []vt.Level{strictL, auditAllLog}, fewLevels, extra)
 	listFamily(r, w, fewLevels, []vt.Level{strictL, auditAllLog}, extra)
+	// (viii) digest algorithm of signed blob descriptors; (ix) keys of the required-metadata map (keysalgs.go)
+	otherAlgFamily(r, w, fewLevels, extra)
+	requiredKeyFamily(r, w, fewLevels, extra)
 	controls += extra.n
 	controlsOK += extra.ok
 	r.Extra["positive_controls_new_families"] = fmt.Sprintf("%d of %d", extra.ok, extra.n)
